@@ -1,53 +1,101 @@
 // @generated
 pub fn all() -> Vec<vcore::Entry> {
     let mut v = Vec::new();
+    #[cfg(not(feature = "half_b"))]
     us00::register(&mut v);
+    #[cfg(not(feature = "half_b"))]
     us01::register(&mut v);
+    #[cfg(not(feature = "half_b"))]
     us02::register(&mut v);
+    #[cfg(not(feature = "half_b"))]
     us03::register(&mut v);
+    #[cfg(not(feature = "half_b"))]
     us04::register(&mut v);
+    #[cfg(not(feature = "half_b"))]
     us05::register(&mut v);
+    #[cfg(not(feature = "half_b"))]
     us06::register(&mut v);
+    #[cfg(not(feature = "half_b"))]
     us07::register(&mut v);
+    #[cfg(not(feature = "half_b"))]
     us08::register(&mut v);
+    #[cfg(not(feature = "half_b"))]
     us09::register(&mut v);
+    #[cfg(not(feature = "half_b"))]
     us10::register(&mut v);
+    #[cfg(not(feature = "half_b"))]
     us11::register(&mut v);
+    #[cfg(not(feature = "half_b"))]
     us12::register(&mut v);
+    #[cfg(not(feature = "half_b"))]
     us13::register(&mut v);
+    #[cfg(not(feature = "half_b"))]
     us14::register(&mut v);
+    #[cfg(not(feature = "half_b"))]
     us15::register(&mut v);
+    #[cfg(not(feature = "half_b"))]
     us16::register(&mut v);
+    #[cfg(not(feature = "half_b"))]
     us17::register(&mut v);
+    #[cfg(not(feature = "half_b"))]
     us18::register(&mut v);
+    #[cfg(not(feature = "half_b"))]
     us19::register(&mut v);
+    #[cfg(not(feature = "half_b"))]
     us20::register(&mut v);
+    #[cfg(not(feature = "half_b"))]
     us21::register(&mut v);
+    #[cfg(not(feature = "half_b"))]
     us22::register(&mut v);
+    #[cfg(not(feature = "half_b"))]
     us23::register(&mut v);
+    #[cfg(not(feature = "half_a"))]
     us24::register(&mut v);
+    #[cfg(not(feature = "half_a"))]
     us25::register(&mut v);
+    #[cfg(not(feature = "half_a"))]
     us26::register(&mut v);
+    #[cfg(not(feature = "half_a"))]
     us27::register(&mut v);
+    #[cfg(not(feature = "half_a"))]
     us28::register(&mut v);
+    #[cfg(not(feature = "half_a"))]
     us29::register(&mut v);
+    #[cfg(not(feature = "half_a"))]
     us30::register(&mut v);
+    #[cfg(not(feature = "half_a"))]
     us31::register(&mut v);
+    #[cfg(not(feature = "half_a"))]
     us32::register(&mut v);
+    #[cfg(not(feature = "half_a"))]
     us33::register(&mut v);
+    #[cfg(not(feature = "half_a"))]
     us34::register(&mut v);
+    #[cfg(not(feature = "half_a"))]
     us35::register(&mut v);
+    #[cfg(not(feature = "half_a"))]
     us36::register(&mut v);
+    #[cfg(not(feature = "half_a"))]
     us37::register(&mut v);
+    #[cfg(not(feature = "half_a"))]
     us38::register(&mut v);
+    #[cfg(not(feature = "half_a"))]
     us39::register(&mut v);
+    #[cfg(not(feature = "half_a"))]
     us40::register(&mut v);
+    #[cfg(not(feature = "half_a"))]
     us41::register(&mut v);
+    #[cfg(not(feature = "half_a"))]
     us42::register(&mut v);
+    #[cfg(not(feature = "half_a"))]
     us43::register(&mut v);
+    #[cfg(not(feature = "half_a"))]
     us44::register(&mut v);
+    #[cfg(not(feature = "half_a"))]
     us45::register(&mut v);
+    #[cfg(not(feature = "half_a"))]
     us46::register(&mut v);
+    #[cfg(not(feature = "half_a"))]
     us47::register(&mut v);
     v
 }
